@@ -53,7 +53,7 @@ def check_laminate(case, ctx):
     off_axis = [a for a in stack if min(abs((a % 90.)), abs(90. - (a % 90.))) > 1e-3 and abs((a % 90.) - 45.) > 1e-3]
     ctx.nontrivial = (n >= 2 and distinct >= 2 and len(off_axis) >= 1) or d != 0. or len(set(map(tuple, props))) > 1
     ctx.label('plies:%d' % min(n, 12), 'offset:%s' % ('zero' if d == 0 else ('pos' if d > 0 else 'neg')),
-              'form:%s' % ('uniform' if case['uniform'] else 'per-ply'),
+              'form:%s' % ('uniform' if case['uniform'] else 'per-ply'), 'numbers:' + case.get('numtype', 'float'),
               'mat-entries:%s' % '/'.join(sorted(set(str(len(p)) for p in props))))
 
     lam = _read(stack, plyts, props, d)
@@ -169,11 +169,29 @@ def check_panel_lam(case, ctx):
     ctx.ok(np.array_equal(F, got['ABD']), 'panel.F', 'Panel.F is not the laminate ABD')
 
 
+def _numtype(lam, kind, ints):
+    """the same kind of definition with integer-typed numbers, as users write them: stack=[0, 45, -45, 90], plyt=1 (mm)."""
+    lam = dict(lam)
+    n = len(lam['stack'])
+    if kind in ('int-thickness', 'int-both'):
+        t = [1 + (v % 4) for v in (ints * n)[:n]]
+        lam['plyts'] = [t[0]] * n if lam['uniform'] else t
+        h = sum(lam['plyts'])
+        # keep the reference surface where it was, relative to the new thickness (in general not an integer)
+        lam['offset'] = 0. if lam['offset'] == 0. else (0.37 if lam['offset'] > 0 else -1.21) * h
+    if kind in ('int-angles', 'int-both'):
+        lam['stack'] = [int(round(a)) for a in lam['stack']]
+    lam.pop('_old_plyts', None)
+    return lam
+
+
 def _laminate_strategy(tier):
-    return st.builds(lambda lam, d2, perm: dict(lam, d2=d2, perm=perm),
+    return st.builds(lambda lam, d2, perm, kind, ints: dict(_numtype(lam, kind, ints), d2=d2, perm=perm, numtype=kind),
                      gen.laminate_case(max_plies=12),
                      gen.fl(-3., 3.),
-                     st.lists(st.integers(0, 1000), min_size=1, max_size=12))
+                     st.lists(st.integers(0, 1000), min_size=1, max_size=12),
+                     st.sampled_from(['float', 'float', 'float', 'float', 'int-thickness', 'int-angles', 'int-both']),
+                     st.lists(st.integers(0, 3), min_size=1, max_size=12))
 
 
 def _panel_strategy(tier):
